@@ -681,7 +681,8 @@ func (q *ListObjectsQuery) Execute(
 		listObjectsResponse.Objects = append(listObjectsResponse.Objects, result.ObjectID)
 	}
 
-	if len(listObjectsResponse.Objects) < int(maxResults) && errs != nil {
+	// maxResults == 0 means "no limit": a response that hit an evaluation error is then never complete.
+	if (maxResults == 0 || len(listObjectsResponse.Objects) < int(maxResults)) && errs != nil {
 		return nil, errs
 	}
 
